@@ -155,6 +155,7 @@ def install(merge=True, deterministic_uuid=True):
 
 
 def uninstall():
+    _STATE["ndset"] = False
     while _INSTALLED:
         mod, name, had, old = _INSTALLED.pop()
         if had:
@@ -164,10 +165,105 @@ def uninstall():
     _STATE["installed"] = False
 
 
+class NDSet:
+    """`set` shadow (C19): same content semantics, but the iteration order of the first `budget` sets holding >= 2
+    distinct elements is an engine choice (every order explored); later sets iterate in insertion order."""
+    budget = [0]
+    rank = []
+
+    def __init__(self, it=()):
+        self._l = []
+        for x in it:
+            self.add(x)
+
+    def add(self, x):
+        if not any(x == y for y in self._l):
+            self._l.append(x)
+
+    def update(self, *its):
+        for it in its:
+            for x in it:
+                self.add(x)
+
+    def __or__(self, o):
+        r = NDSet(self._l)
+        r.update(o)
+        return r
+
+    __ror__ = __or__
+
+    def __ior__(self, o):
+        self.update(o)
+        return self
+
+    def __sub__(self, o):
+        return NDSet([x for x in self._l if not any(x == y for y in o)])
+
+    def __and__(self, o):
+        return NDSet([x for x in self._l if any(x == y for y in o)])
+
+    def __iter__(self):
+        """Iteration follows one global ranking of the objects (like hash order does, consistently across sets); the
+        position of each newly met object in that ranking is an engine choice while the budget lasts."""
+        l = list(self._l)
+        if len(l) < 2:
+            return iter(l)
+        rank = NDSet.rank
+        for x in l:
+            key = getattr(x, "id", None)
+            if not isinstance(key, str):
+                continue
+            if key not in rank:
+                if NDSet.budget[0] > 0 and len(rank) > 0:
+                    NDSet.budget[0] -= 1
+                    pos = CTX().choose(len(rank) + 1, "rank of an object in set iteration order")
+                    CTX().count("set_order_choices")
+                else:
+                    pos = len(rank)
+                rank.insert(pos, key)
+        def k(x):
+            key = getattr(x, "id", None)
+            return rank.index(key) if isinstance(key, str) and key in rank else len(rank)
+        return iter(sorted(l, key=k))
+
+    def __len__(self):
+        return len(self._l)
+
+    def __contains__(self, x):
+        return any(x == y for y in self._l)
+
+    def __eq__(self, o):
+        try:
+            return len(self) == len(o) and all(x in o for x in self._l)
+        except TypeError:
+            return False
+
+    def __repr__(self):
+        return "NDSet(" + repr(self._l) + ")"
+
+
+def install_ndset(budget):
+    """shadow `set` in every efootprint module (module attribute), with `budget` explored iteration orders per run"""
+    import sys
+    NDSet.budget[0] = budget
+    NDSet.rank = []
+    if _STATE.get("ndset"):
+        return
+    for name, mod in list(sys.modules.items()):
+        if name.startswith("efootprint.") and mod is not None:
+            _set(mod, "set", NDSet)
+    _STATE["ndset"] = True
+
+
+def uninstall_ndset():
+    _STATE["ndset"] = False
+
+
 STUB_LIST = [
     "explainable_objects.float -> identity on proxies (to_json / value_as_float_list)",
     "np.full -> object array when the fill value is a proxy (time_builders, server_base, storage)",
     "np.maximum/np.minimum on proxy arrays -> element-wise Ite merge (explainable_objects.np_compared_with)",
     "uuid.uuid4 -> deterministic counter (path replay)",
     "logging disabled",
+    "C19 only: `set` shadowed in efootprint modules by a list-backed set whose iteration order is an engine choice",
 ]
